@@ -298,6 +298,48 @@ theorem project_xz_counterexample_real (epsSq c s : ℝ)
     (by linarith [Real.pi_pos]) h).1
   rw [this]; ring
 
+/-- over ℝ the certified direction always **exists** (so the model is total): for every
+direction with `xsq ≥ 0` whose sign flag is consistent there is a unit vector along it -/
+theorem dir_unit_exists (d : Dir ℝ) (hx : 0 ≤ d.xsq) (hneg : d.xneg = true → 0 < d.xsq) :
+    ∃ c s, d.IsUnit c s := by
+  by_cases hN : d.xsq + d.y * d.y = 0
+  · have hx0 : d.xsq = 0 := by nlinarith [mul_self_nonneg d.y]
+    refine ⟨1, 0, by norm_num, by rw [hN, hx0]; ring, ?_, by simp, fun _ => ⟨rfl, rfl⟩⟩
+    by_cases hn : d.xneg = true
+    · have := hneg hn; rw [hx0] at this; exact absurd this (lt_irrefl 0)
+    · simp [hn]
+  · have hNpos : 0 < d.xsq + d.y * d.y := lt_of_le_of_ne (by nlinarith [mul_self_nonneg d.y]) (Ne.symm hN)
+    set n := √(d.xsq + d.y * d.y) with hn
+    have hnpos : 0 < n := Real.sqrt_pos.mpr hNpos
+    have hnn : n * n = d.xsq + d.y * d.y := Real.mul_self_sqrt hNpos.le
+    have hxx : √d.xsq * √d.xsq = d.xsq := Real.mul_self_sqrt hx
+    by_cases hb : d.xneg = true
+    · refine ⟨-(√d.xsq) / n, d.y / n, ?_, ?_, ?_, ?_, fun h => absurd h hN⟩
+      · field_simp; nlinarith
+      · field_simp; nlinarith
+      · simp only [hb, if_true]
+        exact div_nonpos_of_nonpos_of_nonneg (neg_nonpos.mpr (Real.sqrt_nonneg _)) hnpos.le
+      · have : d.y / n * d.y = d.y * d.y / n := by ring
+        rw [this]; exact div_nonneg (mul_self_nonneg _) hnpos.le
+    · refine ⟨√d.xsq / n, d.y / n, ?_, ?_, ?_, ?_, fun h => absurd h hN⟩
+      · field_simp; nlinarith
+      · field_simp; nlinarith
+      · simp only [hb]
+        exact div_nonneg (Real.sqrt_nonneg _) hnpos.le
+      · have : d.y / n * d.y = d.y * d.y / n := by ring
+        rw [this]; exact div_nonneg (mul_self_nonneg _) hnpos.le
+
+/-- `project` is total on valid inputs over ℝ: every matrix has a certified Euler direction -/
+theorem project_direction_exists (epsSq : ℝ) (pl : Plane) (m : M3 ℝ) :
+    ∃ c s, (dirOf epsSq pl m).IsUnit c s := by
+  have sq : ∀ a : ℝ, (decide (a < 0) = true → 0 < a * a) := by
+    intro a ha; simp only [decide_eq_true_eq] at ha; exact mul_pos_of_neg_of_neg ha ha
+  apply dir_unit_exists
+  · cases pl <;> simp only [dirOf] <;> (try split_ifs) <;>
+      first | exact mul_self_nonneg _ | exact zero_le_one | (nlinarith [mul_self_nonneg m.a00, mul_self_nonneg m.a10])
+  · cases pl <;> simp only [dirOf] <;> (try split_ifs) <;>
+      first | exact sq _ | (intro h; exact absurd h (by simp))
+
 end real
 
 /-! ### finding F1, kernel-checked on a rational planar pose -/
